@@ -16,7 +16,7 @@ func TestVerif(t *testing.T) {
 		Level: "fault_enumeration",
 		Rule: "(a) call scenarios on a virtual clock (synctest bubble, no sockets): stack auth.Client -> http.Client -> [send counter] -> retry.Transport -> fake registry/token service. " +
 			"Every sequence of server answers, chosen lazily one per attempt that reaches the registry, of length <= MaxRetry+4 (later attempts succeed) over the alphabet " +
-			"{503, success, 401 Bearer, 401 Basic, 408, 429 Retry-After:1, 429 Retry-After:100, 429 Retry-After:garbage, timeout error, other transport error; thorough adds 429, 500, 404}; " +
+			"{503, success, 401 Bearer, 401 Basic, 408, 429 Retry-After:1, 429 Retry-After:100, 429 Retry-After:garbage, timeout error, other transport error, a temporary transport error that is no timeout; thorough adds 429, 500, 404}; " +
 			"x body kind {none (GET), PUT *bytes.Reader, PUT one-shot reader, PUT whose GetBody fails, one-shot reader through Repository.Manifests().Push, Repository.Blobs().Push with *bytes.Reader and with a one-shot reader (POST then PUT)} " +
 			"x body size {0,1,3} x the fake reading the whole body or only j bytes (j < size) before every non-success answer x MaxRetry {0,1,2} x token cache {none, pre-filled with two bearer tokens} " +
 			"x policy {default parameters 250ms/2/0.1 in [200ms,3s]; a zero-pause policy 0/2/0.1 in [0,0] (one configuration per body kind); thorough adds 1ms/10/0.5 in [5ms,40ms]}. " +
@@ -37,8 +37,8 @@ func TestVerif(t *testing.T) {
 	})
 }
 
-var quickAlphabet = []beh{b503, bOK, b401Bearer, b401Basic, b408, b429RA1, b429RAg, bTimeout, bConnErr, b429RA100}
-var fullAlphabet = []beh{b503, bOK, b401Bearer, b401Basic, b408, b429RA1, b429RAg, bTimeout, bConnErr, b429RA100, b429, b500, b404}
+var quickAlphabet = []beh{b503, bOK, b401Bearer, b401Basic, b408, b429RA1, b429RAg, bTimeout, bConnErr, b429RA100, bTempErr}
+var fullAlphabet = []beh{b503, bOK, b401Bearer, b401Basic, b408, b429RA1, b429RAg, bTimeout, bConnErr, b429RA100, bTempErr, b429, b500, b404}
 
 type combo struct {
 	kind, size, partial int
